@@ -194,8 +194,34 @@ pub fn entry_of(world: &World) -> Option<usize> {
 }
 
 /// static signature tags of (world, goal): `+overlap`, `+co-reach`, `+implied-bound-cycle` (fragment worlds only)
+/// textual test (works on every world, also outside the fragment parser): does some impl header mention one of
+/// its type parameters more than once (`impl<T> Tr for (T, T)`, `impl<T> Tr<T> for W<T>`)?
+pub fn nonlinear_impl_header(items: &str) -> bool {
+    let mut rest = items;
+    while let Some(i) = rest.find("impl<") {
+        let after = &rest[i + 5..];
+        let close = match after.find('>') {
+            Some(j) => j,
+            None => break,
+        };
+        let params: Vec<&str> = after[..close].split(',').map(|s| s.trim().trim_start_matches("const ").trim()).filter(|s| !s.is_empty() && !s.starts_with('\'')).collect();
+        let tail = &after[close + 1..];
+        let end = [tail.find(" where "), tail.find('{')].iter().flatten().min().copied().unwrap_or(tail.len());
+        let header = &tail[..end];
+        let words: Vec<&str> = header.split(|c: char| !(c.is_alphanumeric() || c == '_')).filter(|w| !w.is_empty()).collect();
+        if params.iter().any(|p| words.iter().filter(|w| *w == p).count() > 1) {
+            return true;
+        }
+        rest = tail;
+    }
+    false
+}
+
 pub fn static_tags(world: &World, goal: usize) -> String {
     let mut t = String::new();
+    if nonlinear_impl_header(&world.items.join("\n")) {
+        t.push_str("+nonlinear");
+    }
     if let Ok((prog, goals)) = crate::wgen::parse_world(world) {
         if crate::wgen::has_overlapping_impls(&prog) {
             t.push_str("+overlap");
